@@ -98,12 +98,15 @@ def build():
 
     rows = _chain(fn)
     names = [r[0] for r in rows]
-    out.append("(* parse_config: directive names in the order of the if/elif chain *)\n"
-               "Definition CFG_DIRECTIVES : list str :=\n  [" + "; ".join(coq_str(n) for n in names) + "].\n")
-    rr = [x for x in (_rule_row(n, b) for n, b in rows) if x is not None]
+    if len(set(names)) != len(names):
+        raise TieBroken("parse_config: a directive occurs twice in the chain")
+    # the branches are mutually exclusive string comparisons: their order is immaterial, so the tables are sorted
+    out.append("(* parse_config: directive names of the if/elif chain (sorted) *)\n"
+               "Definition CFG_DIRECTIVES : list str :=\n  [" + "; ".join(coq_str(n) for n in sorted(names)) + "].\n")
+    rr = sorted(x for x in (_rule_row(n, b) for n, b in rows) if x is not None)
     b = lambda v: "true" if v else "false"  # noqa: E731
     body = ";\n   ".join(f"({coq_str(n)}, {coq_str(l)}, {coq_str(d)}, {b(m)}, {b(a)}, {b(t)})" for n, l, d, m, a, t in rr)
-    out.append("(* parse_config: rule directives - (name, target list, decision, calls _extract_message,\n"
+    out.append("(* parse_config: rule directives, sorted by name - (name, target list, decision, calls _extract_message,\n"
                "   calls _strip_exact_anchor, calls _expand_pattern_tildes) *)\n"
                f"Definition CFG_RULE_DIRECTIVES : list (str * str * str * bool * bool * bool) :=\n  [{body}].\n")
 
